@@ -15,6 +15,7 @@ import warnings
 warnings.filterwarnings("ignore")
 os.environ.setdefault("PYTHONHASHSEED", "0")
 ROOT = os.path.dirname(os.path.dirname(os.path.abspath(__file__)))
+os.environ.setdefault("VERIF_RUN_ID", "%d" % os.getpid())       # private scratch directory out/run_<id> (see tlc.OUT)
 sys.path.insert(0, ROOT)
 sys.path.insert(0, os.environ.get("VERIF_REPO", "/repo"))
 
@@ -233,5 +234,24 @@ def crash_site(exc):
     return None
 
 
+def _cleanup(rc):
+    """scratch of a clean run is removed; it is kept (TLC logs, traces) when something was reported"""
+    import shutil
+    d = tlc.OUT
+    if rc == 0 and os.path.basename(d).startswith("run_") and os.environ.get("VERIF_KEEP") != "1":
+        shutil.rmtree(d, ignore_errors=True)
+    # stale scratch of killed runs (older than a day)
+    base = os.path.dirname(d)
+    try:
+        for n in os.listdir(base):
+            q = os.path.join(base, n)
+            if n.startswith("run_") and q != d and time.time() - os.path.getmtime(q) > 86400:
+                shutil.rmtree(q, ignore_errors=True)
+    except OSError:
+        pass
+
+
 if __name__ == "__main__":
-    sys.exit(main())
+    rc = main()
+    _cleanup(rc)
+    sys.exit(rc)
